@@ -1,6 +1,15 @@
 package main
 
-import "time"
+import (
+	"strings"
+	"sync"
+	"time"
+
+	"github.com/kstenerud/go-concise-encoding/cbe"
+	"github.com/kstenerud/go-concise-encoding/configuration"
+	"github.com/kstenerud/go-concise-encoding/cte"
+	"github.com/kstenerud/go-concise-encoding/rules"
+)
 
 func init() { checks["C10"] = checkC10 }
 
@@ -21,4 +30,68 @@ func checkC10(c *Check) {
 	// long random walks of accepted events, each followed to the first rejection
 	runRulesGen(c, genCfg{Alphabet: "AlphaStructB", MaxLen: 40, Lim: defaultLim, Reasons: reasons, Prefix: prefixDoc, Filter: "FilterValid", Label: "structure/walk", Timeout: 10 * time.Minute, Workers: 8, Simulate: "num=" + map[string]string{"quick": "300", "thorough": "5000"}[c.Tier], Depth: 41})
 	runRulesGen(c, genCfg{Alphabet: "AlphaStructB", MaxLen: n2 - 1, Lim: defaultLim, Reasons: reasons, Prefix: prefixDoc, Label: "structure/body+pad", Timeout: 30 * time.Minute, Workers: 8})
+	c10Traces(c)
+}
+
+// c10Traces: the other direction.  Real executions of the validator driven by the real
+// decoders (not by the harness) are recorded - every call, its verdict and what was
+// forwarded - and must be behaviours of Rules.tla: the CTE decoder on every text of the
+// document grammar model (accepted and refused ones) and on the encoded CTE corpus, the CBE
+// decoder on the encoded corpus.
+func c10Traces(c *Check) {
+	var mu sync.Mutex
+	var trace []TraceLine
+	nDocs := 0
+	record := func(format string, doc []byte) {
+		cfg := configuration.New()
+		post := &Recorder{}
+		shim := &TraceShim{Inner: rules.NewRules(post, cfg), Post: post}
+		runWithWatchdog(20*time.Second, func() {
+			if format == "cbe" {
+				_ = cbe.NewDecoder(cfg).DecodeDocument(doc, shim)
+			} else {
+				_ = cte.NewDecoder(cfg).DecodeDocument(doc, shim)
+			}
+		})
+		mu.Lock()
+		if len(trace) < 350000 {
+			trace = append(trace, TraceLine{Reset: true})
+			trace = append(trace, shim.Lines...)
+			nDocs++
+		}
+		mu.Unlock()
+	}
+	docLen := 4
+	if c.Tier == "thorough" {
+		docLen = 5
+	}
+	// texts of the grammar model: only those the token machine accepts reach the validator with
+	// more than a prefix, but refused ones exercise the validator's refusals too
+	st := runCTEDocTexts(c, docLen, func(text []byte, verdict string) {
+		if verdict == "syntax" && len(text)%7 != 0 {
+			return // a sample of the syntactically refused texts is enough
+		}
+		record("cte", text)
+	})
+	_ = st
+	docs := genCorpusFrom(c, "AlphaDocCTE", "FilterDoc", prefixDoc, 4, "trace corpus")
+	forCorpus(c, docs, 1, concOpts{Chunk: true}, func(abs corpusDoc, evs []AEv, cfg *configuration.Configuration) {
+		if b, rej, _ := encodeCTE(evs, cfg); rej < 0 {
+			record("cte", b)
+		}
+		hasCT := false
+		for _, e := range evs {
+			if e.AT == "ctxt" || e.M == "OnComment" {
+				hasCT = true
+			}
+		}
+		if !hasCT {
+			if b, rej, _ := encodeCBE(evs, cfg); rej < 0 {
+				record("cbe", b)
+			}
+		}
+	})
+	c.Count("traces|"+strings.Repeat("x", 1), true)
+	validateRulesTrace(c, "decoder-driven executions", trace, defaultLim)
+	bindingSelfTest(c, trace, defaultLim)
 }
